@@ -117,7 +117,7 @@ TW == Is("W") /\ E.c \in DOMAIN ops
 \* a failed POST (context done, peer unreachable) unregisters the connection
 HWErr ==
   /\ Pending(E.c) /\ ops[E.c].typ = "W"
-  /\ G("err", ops[E.c].ctx = "done" \/ ops[E.c].cls = "unreach")
+  /\ G("err", ops[E.c].ctx = "done" \/ ops[E.c].cls = "unreach" \/ ops[E.c].rlost)
   /\ ops' = [ops EXCEPT ![E.c].st = "ret"]
   /\ LET c == ops[E.c].conn IN
        /\ conns' = CloseAddr(conns, conns[c].own, conns[c].addr)
@@ -188,12 +188,16 @@ TConn ==
 \* ServeHTTP is called with a request of class E.res (decided by the harness on the raw body).
 \* A request that came through the loopback (k = "loop") is the POST of a pending Write to this
 \* instance: same digest, same class, each Write posted once.
+LoopWrites(at, dg, cls) == {w \in DOMAIN ops : /\ ops[w].st = "pend" /\ ops[w].typ = "W" /\ ops[w].conn # 0
+                                                /\ conns[ops[w].conn].addr = at /\ ~ops[w].taken
+                                                /\ ops[w].dg = dg /\ ops[w].cls = cls}
 THS ==
   /\ Is("HS")
   /\ E.c \notin DOMAIN reqs /\ E.c \notin DOMAIN ops
   /\ E.res \in Shapes
   /\ reqs' = reqs @@ (E.c :> [at |-> E.x, class |-> E.res, addr |-> E.msg, dg |-> E.pay,
-                              st |-> "open", ctx |-> "live", lost |-> FALSE])
+                              st |-> "open", ctx |-> "live", lost |-> FALSE,
+                              w |-> IF E.k = "loop" /\ LoopWrites(E.x, E.pay, E.res) # {} THEN Min(LoopWrites(E.x, E.pay, E.res)) ELSE 0])
   /\ IF E.k = "loop"
        THEN LET ws == {w \in DOMAIN ops : /\ ops[w].st = "pend" /\ ops[w].typ = "W" /\ ops[w].conn # 0
                                           /\ conns[ops[w].conn].addr = E.x /\ ~ops[w].taken
@@ -215,11 +219,18 @@ THttp ==
          [] E.code = 200 ->
               /\ G("ladder", WellFormed(r.class))
               /\ reqs' = [reqs EXCEPT ![E.c].st = IF r.st = "delivered" THEN "done" ELSE "owed"]
+              \* (res = "lost": the harness drops the connection instead of sending this answer - the envelope is with
+              \* its reader, the Write that posted it will fail; it must not be posted again: THS, rule "post")
+              /\ E.res = "lost" => r.w # 0
          [] OTHER ->
               /\ G("ladder", WellFormed(r.class)) /\ r.st = "open"
               /\ G("abort", r.ctx = "done" \/ r.lost \/ FailingWrite(r.at, r.addr))
               /\ reqs' = [reqs EXCEPT ![E.c].st = "done"]
-  /\ TSame /\ UNCHANGED <<phase, hcfg, now, nextTick, conns, parked, npend>>
+  /\ IF E.code = 200 /\ E.res = "lost" /\ reqs[E.c].w # 0
+       THEN /\ ops' = [ops EXCEPT ![reqs[E.c].w].rlost = TRUE]
+            /\ UNCHANGED <<cfg, q, sent, got, broken, nW, nR, nraw>>
+       ELSE TSame
+  /\ UNCHANGED <<phase, hcfg, now, nextTick, conns, parked, npend>>
 
 \* The fake clock is advanced by E.n seconds and the harness waits for the cleaner.  If the ticker
 \* fires, the cleaner closes exactly the connections that are Idle at the new time.
